@@ -20,10 +20,10 @@ from .. import rowlib as R
 from . import c07
 
 MANIFEST = dict(
-    text="Proof: Lean theorems over the hand model of RowParser.parse_row (Props/C09.lean: layout independence as a corollary of C07's round trip for the proved family, asterisk expansion/broadcast for every schema, positional = keyword under Unambiguous with the kernel-checked counterexample, column commutation, short = long flow headers via the T1 remap tables; general statements kept visible where only part is proved); model tied to the code on every generated layout; direct oracle: all equivalent layouts of a value parse to pairwise equal rows on the real code, incl. the inputs of tests/test_differentways.py and tests/test_full_rows.py.",
+    text="Proof (partial): Lean theorems over the hand model of RowParser.parse_row: column_perm (any reordering that keeps the order of the columns of each top-level field — every schema, via the frame lemma of find_entry), asterisk_expand / asterisk_broadcast (every schema, every row), short_eq_long and message_text_eq_main_arg (every entry of the source's basic_header_dict / row_type_to_main_arg, any cell text and any other columns; tables re-extracted each run) plus star_element_eq_indexed_cell (edges.*.b element = edges.k.b cell), positional_eq_keyword_partial under Unambiguous with the kernel-checked counterexample positional_needs_Unambiguous (finding F-C09-a), layout_independent_partial (spread vs packed; corollary of C07 for its proved family). General statements layout_independent_full / positional_eq_keyword_full stay visible. Model tied to the code on every generated layout; direct oracle: ALL equivalent layouts of a value (spread/packed per field, | or ; list cells, positional/keyword/mixed records, * columns with broadcast, short/long flow headers, column permutations) parse to pairwise equal rows on the real code, incl. the inputs of tests/test_differentways.py and tests/test_full_rows.py.",
     ref="§5 C09",
-    note="Trusts: Lean kernel (axioms audited each run), the differential harness and Driver JSON codec, pydantic v1, CPython primitives as modelled. The documented keyword/positional ambiguity (F-C09-a) is a hypothesis (Unambiguous); the main stream avoids it, a deterministic stream shows it.",
-    technique="Lean 4 proof + model/code correspondence + exhaustive-per-value layout enumeration through the real parser",
+    note="Trusts: Lean kernel (axioms audited each run), the differential harness and Driver JSON codec, pydantic v1, CPython primitives as modelled. The documented keyword/positional ambiguity (F-C09-a) is a hypothesis (Unambiguous); the main stream avoids it, a deterministic stream shows it. The whole-row composition 'short row = fully indexed row' is checked by kernel evaluation on concrete rows and by the oracle, not stated as one theorem.",
+    technique="Lean 4 proof (frame lemma + lookup-equivalence for column order; fold algebra for * columns; T1-tied remap tables) + model/code correspondence + per-value layout enumeration through the real parser",
 )
 
 import collections
